@@ -7,7 +7,8 @@ for every byte value with all other lanes unconstrained (lane independence + per
 canonical storage with base i = code(byte i), every byte converted exactly once, for every length 0..100 on both the AVX2
 and the scalar path; the str constructor uses the same table; from_dna_only_string returns exactly the maximal valid
 runs for every validity pattern; from_acgt_bytes_hashn leaves ACGT untouched and substitutes (hash(name, position) % 4)
-with a fixed-key hasher, no random state reachable."""
+with a fixed-key hasher, no random state reachable.
+Added later: str::trim* modelled; a row of text that starts and ends with white space."""
 import os
 from .. import dt_strings, lemmas
 
